@@ -16,14 +16,14 @@ LEVEL = "exploration"
 RULE = ("case = a history of 2..6 RE(plan, **kw) calls on one engine, each opening one run; the four metadata sources "
         "(persistent RE.md, plan identity, open_run kwargs, call kwargs) are seeded dictionaries over a small key pool so "
         "that keys overlap in every pattern, incl. 'sample' and 'scan_id' overrides; md_normalizer in {identity, add key, "
-        "rename key, drop key}; md_validator accepts or rejects (by a marker in the merged md); scan_id_source in "
+        "rename key, drop key, whitelist (often empty result)}; a later subscriber raising on 'start' in some calls; md_validator accepts or rejects (by a marker in the merged md); scan_id_source in "
         "{default, custom sync, custom async}; oracle: RunStart minus uid/time == normalizer(persistent + plan identity + "
         "open_run md + call kw, later wins); with the default source scan_ids of consecutive OPENED runs differ by exactly "
         "1 and equal RE.md['scan_id']; a rejecting validator raises at the open_run yield and no RunStart is emitted; "
         "distinct = (key-overlap pattern, normalizer, validator history shape, scan_id source)")
 ASSUMPTIONS = ["reserved keys uid/time are not supplied; schema-typed keys are only given schema-valid values"]
 REQUIRED_COUNTERS = {"histories": 200, "starts_checked": 500, "rejected_opens": 100, "overlapping_keys": 500,
-                     "accept_after_reject": 50}
+                     "accept_after_reject": 50, "start_emission_faults": 30, "empty_normalizer_results": 10}
 MANIFEST = {
     "technique": "reference merge model vs RunStart documents of the real engine over seeded multi-call histories with "
                  "overlapping metadata sources, validators and normalizers",
@@ -76,7 +76,10 @@ def normalizers():
         d.pop("k2", None)
         return d
 
-    return {"identity": ident, "add": add, "rename": rename, "drop": drop}
+    def whitelist(md):  # frequently returns an empty (falsy) dictionary
+        return {k: v for k, v in md.items() if k == "k3"}
+
+    return {"identity": ident, "add": add, "rename": rename, "drop": drop, "whitelist": whitelist}
 
 
 def run_case(case):
@@ -84,7 +87,7 @@ def run_case(case):
     for i in range(case["start"], case["start"] + case["count"]):
         rng = rng_for(case["seed"], "C17", i)
         sub = {"start": i, "count": 1, "seed": case["seed"]}
-        norm_name = rng.choice(["identity", "identity", "add", "rename", "drop"])
+        norm_name = rng.choice(["identity", "identity", "add", "rename", "drop", "whitelist"])
         norm = normalizers()[norm_name]
         src_kind = rng.choice(["default", "default", "sync", "async"])
         kw = {}
@@ -104,9 +107,17 @@ def run_case(case):
         persistent = rand_md(rng, "persistent")
         h = Harness(md=dict(persistent), **kw)
         RE = h.RE
+        fail_start = {"on": False}
+
+        def late_subscriber(name, doc):  # registered after the harness' recorder, so the recorder has seen the document
+            if name == "start" and fail_start["on"]:
+                raise RuntimeError("subscriber failed on start")
+
+        RE.subscribe(late_subscriber)
         ncalls = rng.randint(2, 6)
         problems = []
-        counters = {"histories": 1, "starts_checked": 0, "rejected_opens": 0, "overlapping_keys": 0, "accept_after_reject": 0}
+        counters = {"histories": 1, "starts_checked": 0, "rejected_opens": 0, "overlapping_keys": 0, "accept_after_reject": 0,
+                    "start_emission_faults": 0, "empty_normalizer_results": 0}
         prev_scan_id = None
         prev_was_reject = False
         shape = ""
@@ -131,6 +142,8 @@ def run_case(case):
                 yield Msg("close_run")
 
             plan = the_plan()
+            fail_start["on"] = (not reject) and rng.random() < 0.15
+            counters["start_emission_faults"] += int(fail_start["on"])
             md_before = copy.deepcopy(dict(RE.md))
             ndoc = len(h.docs())
             r = h.call("RE", RE, plan, **call_md)
@@ -160,6 +173,7 @@ def run_case(case):
             exp.update(open_md)
             exp.update(call_md)
             exp = norm(copy.deepcopy(exp))
+            counters["empty_normalizer_results"] += int(not exp)
             got = {k: v for k, v in st.items() if k not in ("uid", "time")}
             keys_multi = sum(1 for k in KEYS if sum(k in d for d in (md_before, open_md, call_md)) >= 2)
             counters["overlapping_keys"] += keys_multi
@@ -171,7 +185,7 @@ def run_case(case):
                                  f"call {c}: {jsonable(diff)}"))
             sid = RE.md.get("scan_id")
             if src_kind == "default":
-                if "scan_id" not in open_md and "scan_id" not in call_md and st.get("scan_id") != sid:
+                if "scan_id" not in open_md and "scan_id" not in call_md and "scan_id" in st and st["scan_id"] != sid:
                     problems.append(("scan_id-in-RunStart-differs-from-persistent", f"{st.get('scan_id')} vs RE.md {sid}"))
                 if prev_scan_id is not None and sid != prev_scan_id + 1:
                     problems.append((f"scan_id-step-{sid - prev_scan_id}:after-{'rejected' if prev_was_reject else 'accepted'}-open",
